@@ -5,8 +5,8 @@ import z3
 
 from pyvc import sorts as S
 from pyvc import spec
-from pyvc.sorts import Node, Ty
-from pyvc.symex import is_ty, is_z3
+from pyvc.sorts import Node, Ty, I
+from pyvc.symex import is_ty, is_z3, Unsupported
 from pyvc import builtins_impl as BI
 from pyvc.harness import Variant
 from . import core
@@ -287,6 +287,100 @@ _base_variants3c = variants
 
 def variants(world, tier="quick", only=None):
     out = _base_variants3c(world, tier, None) + [BvSortInternVariant(world, True), BvSortInternVariant(world, False)]
+    if only:
+        out = [v for v in out if any(o in v.name for o in only)]
+    return out
+
+
+class CompositeSortIdentityVariant(Variant):
+    """The real __eq__ / __hash__ of the composite sorts, run from source on instances built by the real constructors over
+    built-in component sorts: two function sorts are equal exactly when the return sorts and the parameter sorts are, two array
+    sorts exactly when index and element sorts are, two bit-vector sorts exactly when the widths are; sorts of different
+    families are different; equal sorts have equal hashes."""
+    prop_ids = ("C03",)
+    replay_kind = "sort-identity"
+    BUILTIN = TypeIdentityVariant.BUILTIN
+
+    def __init__(self, world, family, left, right):
+        self.world, self.family, self.left, self.right = world, family, left, right
+        self.qualname = {"function": "pysmt.typing._FunctionType.__eq__", "array": "pysmt.typing.PySMTType.__eq__",
+                         "bv": "pysmt.typing._BVType.__eq__", "mixed": "pysmt.typing.PySMTType.__eq__"}[family]
+        self.name = "sorts:%s[%s vs %s]" % (family, "/".join(map(str, left)), "/".join(map(str, right)))
+
+    def base(self, ex, what):
+        # the built-in sorts are singletons (typing.BOOL / INT / REAL / STRING): one object per kind, shared by both sides
+        from pyvc.symex import ClassRef
+        cache = ex.ghost.setdefault("builtin_sort_objects", {})
+        if what not in cache:
+            cache[what] = self.world.instantiate(ex, ClassRef("pysmt.typing." + self.BUILTIN[what]), [], {})
+        return cache[what]
+
+    def mk(self, ex, fam, comps, tag):
+        from pyvc.symex import ClassRef
+        W = self.world
+        if fam == "function":
+            return W.instantiate(ex, ClassRef("pysmt.typing._FunctionType"), [self.base(ex, comps[0]), [self.base(ex, c) for c in comps[1:]]], {})
+        if fam == "array":
+            return W.instantiate(ex, ClassRef("pysmt.typing._ArrayType"), [self.base(ex, comps[0]), self.base(ex, comps[1])], {})
+        if fam == "bv":
+            w = z3.Const("width_" + tag, I)
+            ex.assume(w >= 1)
+            setattr(self, "w_" + tag, w)
+            return W.instantiate(ex, ClassRef("pysmt.typing._BVType"), [w], {})
+        raise KeyError(fam)
+
+    def setup(self, ex):
+        W = self.world
+        for q in [q for q in list(W.contracts) + list(W.builtins) if str(q).startswith("new:pysmt.typing.")]:
+            W.contracts.pop(q, None)
+        if self.family == "mixed":
+            self.a = self.mk(ex, self.left[0], self.left[1:], "a")
+            self.b = self.mk(ex, self.right[0], self.right[1:], "b")
+        else:
+            self.a = self.mk(ex, self.family, self.left, "a")
+            self.b = self.mk(ex, self.family, self.right, "b")
+        return W.getattr(ex, self.a, "__eq__"), [self.b], {}
+
+    def check(self, ex, outcome):
+        kind, r = outcome
+        if kind == "raise":
+            return [("no-exception", z3.BoolVal(False))]
+        W = self.world
+        rz = r if is_z3(r) else z3.BoolVal(bool(r))
+        if self.family == "bv":
+            want = self.w_a == self.w_b
+        elif self.family == "mixed":
+            want = z3.BoolVal(False)
+        else:
+            want = z3.BoolVal(tuple(self.left) == tuple(self.right))
+        goals = [("same-sort-exactly-when-the-components-are", rz == want)]
+        if self.family in ("bv", "function"):
+            return goals           # hash(width) / the sum of component hashes: Python's hash of an int and sum() over hashes are not modelled
+        try:
+            ha = ex.call(W.getattr(ex, self.a, "__hash__"), [], {})
+            hb = ex.call(W.getattr(ex, self.b, "__hash__"), [], {})
+            he = BI._eq(W, ex, ha, hb)
+            he = he if is_z3(he) else z3.BoolVal(bool(he))
+            goals.append(("equal-sorts-have-equal-hashes", z3.Implies(rz, he)))
+        except Unsupported:
+            pass
+        return goals
+
+
+_base_variants3z = variants
+
+
+def variants(world, tier="quick", only=None):
+    out = _base_variants3z(world, tier, None)
+    fam = [("function", ("Int", "Int"), ("Int", "Int")), ("function", ("Int", "Int"), ("Real", "Int")), ("function", ("Int", "Int"), ("Int", "Real")),
+           ("function", ("Bool", "Int", "Real"), ("Bool", "Int", "Real")), ("function", ("Bool", "Int", "Real"), ("Bool", "Real", "Int")),
+           ("function", ("Int", "Int"), ("Int", "Int", "Int")),
+           ("array", ("Int", "Real"), ("Int", "Real")), ("array", ("Int", "Real"), ("Real", "Int")), ("array", ("Int", "Real"), ("Int", "Int")),
+           ("array", ("Int", "Real"), ("Real", "Real")), ("bv", (), ()),
+           ("mixed", ("function", "Int", "Int"), ("array", "Int", "Int")), ("mixed", ("array", "Int", "Int"), ("function", "Int", "Int")),
+           ("mixed", ("bv",), ("array", "Int", "Int")), ("mixed", ("function", "Int", "Int"), ("bv",))]
+    for f, l, r in fam:
+        out.append(CompositeSortIdentityVariant(world, f, l, r))
     if only:
         out = [v for v in out if any(o in v.name for o in only)]
     return out
